@@ -1,6 +1,6 @@
 (* Properties/C02.v — The loader is total.
    Model: Xml/Lexer.v, Xml/Parser.v.  Proofs: Xml/LexerProofs.v, Xml/ParserProofs.v. *)
-From AV Require Import Base.Bytes Base.Outcome Hash.HashModel Spec.SpecOps Xml.Lexer Xml.Parser Xml.LexerProofs Xml.TablesOk Xml.ParserProofs.
+From AV Require Import Base.Bytes Base.Outcome Hash.HashModel Spec.SpecOps Xml.Lexer Xml.Parser Xml.LexerProofs Xml.TablesOk Xml.ParserProofs Xml.ParserCheck.
 
 (* [U] the attribute scan of the xml header never panics (fix d17bf18) *)
 Theorem C02_header_attrs_total :
@@ -62,3 +62,20 @@ Theorem C02_line_bounds :
   | Raise e st => in_range e /\ Forall in_range (p_warnings st)
   end.
 Proof. exact load_line_bounds. Qed.
+
+(* [U] the header check (check_buffer = check_arxml_header in lenient mode; stated for both modes) is total as well *)
+Theorem C02_check_total :
+  forall (strict : bool) (T : tables) (tab_el tab_at tab_en : nametab) (check_fn : N -> list N -> res bool)
+         (float_parse : list N -> option N) (bs : list N),
+  loader_hyps T tab_el tab_at tab_en check_fn -> bytes_ok bs = true ->
+  exists b, check_arxml_header strict T tab_el tab_at tab_en check_fn float_parse bs = Val b.
+Proof. exact check_total_closed. Qed.
+
+(* [U] C02_check_accepts: the header check (lenient, as check_buffer runs it) accepts every buffer that loading
+   accepts, in either mode.  For every table set; no hypothesis. *)
+Theorem C02_check_accepts :
+  forall (strict : bool) (T : tables) (tab_el tab_at tab_en : nametab) (check_fn : N -> list N -> res bool)
+         (float_parse : list N -> option N) (bs : list N) (t : etree) (st : pstate),
+  load strict T tab_el tab_at tab_en check_fn float_parse bs = Val (Ret t st) ->
+  check_arxml_header false T tab_el tab_at tab_en check_fn float_parse bs = Val true.
+Proof. exact load_check_accepts. Qed.
